@@ -1,5 +1,6 @@
 /- Line-protocol verbs for the response pipeline (C02, C12, C13). -/
 import FwdVerif.Model.Resp
+import FwdVerif.Model.Flush
 import FwdVerif.Driver.Req
 
 namespace FwdVerif
@@ -32,7 +33,36 @@ def encodeFraming : Framing → String
 def encodeBody : BodyXform → String
   | .same => "same" | .gunzip => "gunzip" | .dropped => "dropped"
 
+/-- one response of a connection: `<headerOnly>:<sse>:<minor>:<lengthKnown>/<write>,<write>,…` -/
+def decodeReply (t : String) : Option Flush.Reply :=
+  match t.splitOn "/" with
+  | [attrs, ws] =>
+    match attrs.splitOn ":" with
+    | [ho, sse, minor, known] => do
+      let ho ← boolOf ho
+      let sse ← boolOf sse
+      let minor ← natOf minor
+      let known ← boolOf known
+      let ws ← bytesList ws
+      some { pat := Flush.choosePattern ho sse minor known, writes := ws }
+    | _ => none
+  | _ => none
+
+def encodePat : Option Flush.Pat → String
+  | none => "-"
+  | some p => hexOfBytes [p.1, p.2]
+
+/-- `<pattern>/<flush bit per write and for the final Flush>/<bytes delivered after each of them>` -/
+def encodeOuts (r : Flush.Reply) (outs : List Flush.Out) : String :=
+  encodePat r.pat ++ "/" ++ String.join (outs.map fun o => ofBool o.flushed) ++ "/" ++
+    joinList (outs.map fun o => toString o.delivered)
+
 def handle : List String → String
+  | "flushconn" :: size :: replies =>
+    match natOf size, replies.mapM decodeReply with
+    | some size, some rs =>
+      joinList2 ((rs.zip (Flush.Conn.fresh.replies size rs)).map fun (r, o) => encodeOuts r o)
+    | _, _ => "bad-op"
   | "process" :: toks =>
     match decodeCtx toks, decodeResp toks with
     | some rc, some o =>
